@@ -133,6 +133,18 @@ Proof.
   rewrite E. reflexivity.
 Qed.
 
+(* Obj.Dump(): what @dump shows for an object *)
+Theorem object_dump_order_independent ident m1 m2 :
+  NoDup (map fst m1) -> Permutation m1 m2 -> dump_value ident (VObj m1) = dump_value ident (VObj m2).
+Proof.
+  intros Hnd Hp. cbn [dump_value].
+  set (f := fun kv : bytes * value => let (k, x) := kv in (k, dump_value (S ident) x)).
+  assert (E : asort (map f m1) = asort (map f m2)).
+  { apply asort_order_independent; [|apply Permutation_map, Hp].
+    rewrite map_map. erewrite map_ext; [exact Hnd|]. intros [k x]. reflexivity. }
+  rewrite E, (Permutation_length Hp). reflexivity.
+Qed.
+
 (* evaluating an object literal: which entry fails first, and the resulting object *)
 Theorem object_literal_order_independent cx fuel en ln p1 p2 :
   NoDup (map fst p1) -> Permutation p1 p2 ->
